@@ -118,6 +118,28 @@ func debugRun(dir, pat string, rest []string) int {
 			fmt.Println("ENGINE-ERROR:", err)
 		}
 	}
+	if os.Getenv("GOVC_TAGGED") != "" {
+		// development aid: like scope "tagged" of a check - drop the safety/alloc sweep
+		var keep []*Obligation
+		for _, o := range e.obligations {
+			if o.Kind != "safety" && o.Kind != "alloc" {
+				keep = append(keep, o)
+			}
+		}
+		e.obligations = keep
+	}
+	if os.Getenv("GOVC_NOSOLVE") != "" {
+		// exploration statistics only (development aid): obligations per name, no solver runs
+		cnt := map[string]int{}
+		for _, o := range e.obligations {
+			cnt[o.Name]++
+		}
+		for _, k := range sortedKeys(cnt) {
+			fmt.Printf("%5d %s\n", cnt[k], k)
+		}
+		fmt.Printf("exec %.1fs; %d obligations; %d states\n", time.Since(t0).Seconds(), len(e.obligations), e.stateCounter)
+		return 0
+	}
 	workdir := filepath.Join(verifDir, "work", fmt.Sprintf("debug-%d", os.Getpid()))
 	os.MkdirAll(workdir, 0o755)
 	fail := 0
